@@ -28,6 +28,7 @@ import JPV.Impl.NonDet
 import JPV.Spec.NonDet
 import JPV.Spec.Typing
 import JPV.Proofs.NonDet
+import JPV.Proofs.NonDetPermitted
 namespace JPV.Props
 open JPV JPV.Impl
 
@@ -53,5 +54,15 @@ def C17_perm_statement : Prop :=
     ∃ r, ND.find env q v s = .ok r ∧ r.Perm (Spec.select reg q v)
 
 theorem C17_partial : C17_perm_statement := Proofs.nd_find_perm
+
+/-- the first half of the property at full strength for filter-free queries: for EVERY script — every outcome
+of every member shuffle, visit-now-or-later coin flip and queue interleaving — the result is one of the
+nodelists RFC 9535 permits (`Spec.ND.outcomes`): the nodes of the deterministic result, array elements in
+index order, every node visited by a descendant segment before its descendants, the selector results for one
+visited node contiguous and in selector order -/
+theorem C17_permitted (env : Env) (reg : Spec.Registry) (q : Query) (v : Json) (s : ND.Script)
+    (hff : Spec.filterFree q = true) (hw : v.WF) (hd : (v.depth : Int) ≤ env.maxDepth) (h1 : 1 ≤ env.maxDepth) :
+    ∃ r, ND.find env q v s = .ok r ∧ r ∈ Spec.ND.outcomes reg q v :=
+  Proofs.nd_find_permitted env reg q v s hff hw hd h1
 
 end JPV.Props
